@@ -236,8 +236,10 @@ func genFields(t *rapid.T) []FieldSpec {
 				}
 				f.Tags[s] = key
 			}
-			if _, has := f.Tags["json"]; !has && len(f.Tags) > 0 && rapid.IntRange(0, 4).Draw(t, "jsonSkipped") == 0 {
-				f.Tags["json"] = "-" // the field is kept out of the body; a body key with the field's Go name is a decoy
+			if _, has := f.Tags["json"]; !has && rapid.IntRange(0, 4).Draw(t, "jsonSkipped") == 0 {
+				// the field is kept out of the body; a body key with the field's Go name is a decoy. (As the only tag
+				// it leaves the field without any source: it keeps its zero or default value.)
+				f.Tags["json"] = "-"
 			}
 			if len(f.Tags) > 0 && rapid.IntRange(0, 3).Draw(t, "required") == 0 {
 				var ts []string
@@ -246,8 +248,13 @@ func genFields(t *rapid.T) []FieldSpec {
 						ts = append(ts, s)
 					}
 				}
-				f.Required = rapid.SampledFrom(ts).Draw(t, "requiredOn")
+				if len(ts) > 0 {
+					f.Required = rapid.SampledFrom(ts).Draw(t, "requiredOn")
+				}
 			}
+		}
+		if len(f.Tags) == 0 && rapid.IntRange(0, 2).Draw(t, "onlyJSONSkipped") == 0 {
+			f.Tags["json"] = "-" // no source at all: the field keeps its zero or default value, whatever the body says
 		}
 		if f.Shape != "slice" && rapid.IntRange(0, 3).Draw(t, "default") == 0 {
 			f.Default = validText(t, k)
